@@ -175,9 +175,12 @@ def check_to_dict(entry, where):
     if opts['exclude']:
         kw['exclude'] = list(opts['exclude'])
     exp = expected_attrs(entry['out'])
-    got = o.to_dict(**kw)
     call = '%s[%r].to_dict(%s)' % (entry['ent'], pk_of(entry['pk']), ', '.join('%s=%r' % x for x in sorted(kw.items())))
     shape = 'only' * bool(opts['only']) + 'exclude' * bool(opts['exclude']) or 'plain'
+    try:
+        got = o.to_dict(**kw)
+    except Exception as e:           # noqa: Pony raising where an answer is due is the observation
+        return [('C31:to_dict:%s:raises:%s' % (entry['ent'], type(e).__name__), '%s %s raised %r' % (call, where, e))]
     if set(got) != set(exp):
         return [('C31:to_dict:%s:attributes:%s' % (entry['ent'], shape),
                  '%s %s reports attributes %s, expected %s' % (call, where, sorted(got), sorted(exp)))]
@@ -202,20 +205,23 @@ def check_bag(entry, state_gkeys, where, use_json, via):
     """via: 'bag' (Bag object with configuration) | 'to_dict' | 'to_json' (module functions: default configuration)."""
     objs = [obj_of(o['ent'], o['pk']) for o in entry['objs']]
     cf = entry['cfg']
-    if via == 'bag':
-        bag = serialization.Bag(db)
-        for e in (G, I):
-            bag.config(e, with_collections=cf['wc'], with_lazy=cf['wl'], related_objects=cf['ro'])
-        bag.put(objs)
-        got = json.loads(bag.to_json()) if use_json else bag.to_dict()
-    elif via == 'to_json':
-        got = json.loads(serialization.to_json(objs))
-    else:
-        got = serialization.to_dict(objs)
     as_json = use_json or via == 'to_json'
     call = '%s(%s)%s' % ({'bag': 'Bag(config=%s).to_json' % cf if use_json else 'Bag(config=%s).to_dict' % cf,
                           'to_dict': 'serialization.to_dict', 'to_json': 'serialization.to_json'}[via],
                          [(o['ent'], pk_of(o['pk'])) for o in entry['objs']], '')
+    try:
+        if via == 'bag':
+            bag = serialization.Bag(db)
+            for e in (G, I):
+                bag.config(e, with_collections=cf['wc'], with_lazy=cf['wl'], related_objects=cf['ro'])
+            bag.put(objs)
+            got = json.loads(bag.to_json()) if use_json else bag.to_dict()
+        elif via == 'to_json':
+            got = json.loads(serialization.to_json(objs))
+        else:
+            got = serialization.to_dict(objs)
+    except Exception as e:           # noqa: Pony raising where an answer is due is the observation
+        return [('C31:bag:raises:%s' % type(e).__name__, '%s %s raised %r' % (call, where, e))]
     # the keys of G objects are the real encoding of the composite key: map them back through the real function
     gkey = {real_reduce(k): k for k in state_gkeys}
     diffs = []
@@ -304,13 +310,17 @@ def check_pickles(case, pickles, where):
             elif kind == 'query':
                 objs = list(got)
                 want = sorted(k for k in exp_objs if k[0] == 'I')
-                if [('I', o.id) for o in objs] != want:
+                if [('I', o.get_pk()) for o in objs] != want:
                     diffs.append(('C31:pickle:query:items', 'unpickled query result %s has %s, expected %s' % (where, objs, want)))
                     continue
             else:
                 ent, key, attr = label[1]
                 e = exp_objs[(ent, key)][attr]
-                members = frozenset(x.get_pk() for x in got)
+                try:
+                    members = frozenset(x.get_pk() for x in got)
+                except Exception as ex:  # noqa
+                    diffs.append(('C31:pickle:collection:unusable', 'iterating unpickled %s%r.%s %s raised %r' % (ent, key, attr, where, ex)))
+                    continue
                 if members != e[2]:
                     lost = (ent, attr) in M2M and not members
                     diffs.append(('C31:pickle:collection:many-to-many:members-lost' if lost else 'C31:pickle:collection:%s.%s' % (ent, attr),
@@ -319,7 +329,12 @@ def check_pickles(case, pickles, where):
                 continue
             for o, k in zip(objs, want):
                 exp = exp_objs[k]
-                got_attrs = read_attrs(o, k[0])
+                try:
+                    got_attrs = read_attrs(o, k[0])
+                except Exception as e:   # noqa
+                    diffs.append(('C31:pickle:%s:unusable-object' % kind, 'reading the attributes of unpickled %s%r (%s) %s raised %r' % (
+                        k[0], k[1], kind, where, e)))
+                    continue
                 for name, e in exp.items():
                     if got_attrs[name] != e:
                         diffs.append(('C31:pickle:%s:%s.%s' % (kind, k[0], name),
